@@ -168,8 +168,10 @@ def formula_rule(ctx, rep, fn, want, sink, why):
                 desc += " validated against arg3"
         else:
             desc = show(r, maxdepth=3)
-    else:
+    if sink is None or (not good and not util.is_call(r, sink) and sink.endswith(" as std::convert::From<bigint::Integer>>::from")):
         # padded array: exactly one big-integer value inside, copied into a zeroed 32-byte array
+        # (also where a plain width conversion - `From<Integer>`, no validation - is spelled as
+        # another zero-padding export of the same value; the padding itself is C01's rule)
         xs = {x for x in find_bigint(ctx, se, r)}
         inner = set()
         for x in xs:
@@ -181,6 +183,15 @@ def formula_rule(ctx, rep, fn, want, sink, why):
             f = bigf(ctx, se, next(iter(inner)))
             desc = show_f(f)
             good = f == want
+            # ... and the result IS that zero-padded copy (the wrapper's export looked through),
+            # not something computed from it afterwards
+            top = strip(r)
+            while (util.is_call(top) and len(top[2]) == 1 and (top[1] in util.IDENT_CALLS or top[1].endswith("::from_le_bytes"))) or (top[0] == "agg" and top[1] == "adt" and len(top[4]) == 1):
+                top = strip(top[2][0] if top[0] == "call" else top[4][0])
+            is_pad = top[0] == "after" and util.is_call(top[1]) and (top[1][1].endswith("::index_mut") or top[1][1].split("::")[-1] == "split_at_mut") and strip(top[3])[0] == "repeat" and strip(top[3])[1][:2] == ("int", 0)
+            if good and not is_pad:
+                good = False
+                desc += " - but the value handed on is %s, not the zero-padded little-endian copy of it" % show(top, maxdepth=2)
         else:
             desc = "%d big-integer values in the result" % len(inner)
     rep.check(good, "formula", fn, "srp6", "%s = %s" % (why, desc), "%s: expected %s, found %s" % (why, show_f(want), desc), se.body.loc())
